@@ -615,6 +615,11 @@ fn corner_tables() -> Vec<(Vec<Space>, Vec<Def>)> {
     v.push((one(2), vec![rg(2, 0x0010, 0x0013, units(&[0x48, 0x65, 0x79, 0x4B]))]));
     v.push((one(2), vec![rg(2, 0x0020, 0x0024, units(&[0x61, 0x63, 0x62, 0x64, 0x65])), rg(2, 0x0030, 0x0032, units(&[0x43, 0x42, 0x41]))]));
     v.push((one(1), vec![rg(1, 0x40, 0x42, units(&[0x58, 0x58, 0x58])), rg(1, 0x50, 0x52, units(&[0x3041, 0x3042, 0x3041]))]));
+    // adjacent ranges whose multi-unit targets differ in a LEADING unit while their last units run on
+    // arithmetically (fi fj fk | sl sm sn; surrogate pairs with different high surrogates): two definitions, not one
+    v.push((one(1), vec![rg(1, 0x10, 0x12, s(&[0x66, 0x69])), rg(1, 0x13, 0x15, s(&[0x73, 0x6C]))]));
+    v.push((one(2), vec![rg(2, 0x0100, 0x0101, s(&[0xD83D, 0xDE00])), rg(2, 0x0102, 0x0103, s(&[0xD83E, 0xDE02]))]));
+    v.push((one(1), vec![rg(1, 0x20, 0x21, s(&[0x41, 0x42, 0x30])), rg(1, 0x22, 0x23, s(&[0x41, 0x43, 0x32])), rg(1, 0x24, 0x25, s(&[0x41, 0x43, 0x34]))]));
     // one-unit targets: overlaps in every position, legitimately coalescing neighbours
     v.push((one(1), vec![rg(1, 0x20, 0x7E, s(&[0x20])), rg(1, 0x30, 0x39, s(&[0x660])), ch(1, 0x20, &[0xA0]),
                          rg(1, 0x7F, 0x8F, s(&[0x7F])), rg(1, 0x7E, 0x7E, s(&[0x203E]))]));
